@@ -5,7 +5,8 @@ prop(
     level="exploration",
     technique="runtime monitor: the real PacketReader, FrameReader, transport-parameter parsers and nom primitives of qbase are fed "
     "hostile bytes; every call runs under catch_unwind, iterators are stepped by hand with a step budget, and framing, outcome class and "
-    "error kind are compared with independent reference parsers written from RFC 9000",
+    "error kind are compared with independent reference parsers written from RFC 9000; thorough tier repeats a slice of the same workload under "
+    "AddressSanitizer and under the Miri interpreter (out-of-bounds / dangling / unaligned access)",
     level_text="Inputs: (a) random byte strings of 0..1500 bytes whose first bytes are biased to every packet form/type/version, every frame "
     "type (incl. the 4-byte extension types) and known parameter ids; (b) structure-aware mutants of valid encodings produced by the C05 "
     "generators (coalesced datagrams of all six packet kinds, payloads of 1-4 frames of all 26 kinds, parameter sets of both roles): "
@@ -32,6 +33,7 @@ prop(
         dict(name="decoders", crate="l1base", sub="c03", shards={Q: 16, T: 16}, budget={Q: 100, T: 2000}, timeout=2400),
         dict(name="decoders-relverif", crate="l1base", sub="c03", profile="relverif", tiers=(T,), mandatory=False, shards={T: 16}, budget={T: 1000}, timeout=2400),
         dict(name="asan", kind="asan", crate="l1base", sub="c03", tiers=(T,), budget={T: 20}, timeout=5400, mandatory=False),
+        dict(name="miri", kind="miri", crate="l1base", sub="c03", tiers=(T,), args=["--random", "200"], budget={T: 2}, timeout=5400, mandatory=False),
     ],
     floors={
         Q: {"inputs.packet": 400_000, "inputs.frame": 400_000, "inputs.params": 300_000, "inputs.prim": 50_000, "origin.corpus": 1000,
